@@ -43,6 +43,7 @@ def primOf (name : String) (arg : Option Nat) : Option Prim :=
   | "vmCellSlice", none => some .vmCellSlice
   | "payloadV1toV4", none => some .payloadV1toV4
   | "w5Actions", none => some .w5Actions
+  | "addrWc", none => some .addrWc
   | _, _ => none
 
 mutual
@@ -70,7 +71,31 @@ def tyOf : Nat → Val → Option Ty
     | .cons (.sym "P") (.cons (.sym name) .nil) => (primOf name none).map .prim
     | .cons (.sym "P") (.cons (.sym name) (.cons (.int n) .nil)) => (primOf name (some n.toNat)).map .prim
     | .cons (.sym "vs") (.cons t .nil) => (tyOf fuel t).map .vmStack
-    | .cons (.sym "de") (.cons (.sym id) .nil) => some (.dictE id)
+    | .cons (.sym "de") (.cons k (.cons t .nil)) => do
+      let k ← tyOf fuel k
+      let t ← tyOf fuel t
+      pure (.dictE k t)
+    | .cons (.sym "di") (.cons k (.cons t .nil)) => do
+      let k ← tyOf fuel k
+      let t ← tyOf fuel t
+      pure (.dict k t)
+    | .cons (.sym "ch") (.cons t .nil) => (tyOf fuel t).map .chain
+    | .sym "hl" => some .highload
+    | .cons (.sym "bt") (.cons t .nil) => (tyOf fuel t).map .binTree
+    | .cons (.sym "dae") (.cons k (.cons t (.cons x .nil))) => do
+      let k ← tyOf fuel k
+      let t ← tyOf fuel t
+      let x ← tyOf fuel x
+      pure (.dictAugE k t x)
+    | .cons (.sym "da") (.cons k (.cons t (.cons x .nil))) => do
+      let k ← tyOf fuel k
+      let t ← tyOf fuel t
+      let x ← tyOf fuel x
+      pure (.dictAug k t x)
+    | .cons (.sym "cu") (.cons (.sym id) (.cons body (.cons aux .nil))) => do
+      let body ← tyOf fuel body
+      let aux ← tyOf fuel aux
+      pure (.custom id body aux)
     | .cons (.sym "ee") (.cons (.sym id) .nil) => some (.encErr id)
     | .cons (.sym "o") (.cons (.sym id) .nil) => some (.opaque id)
     | _ => none
